@@ -15,7 +15,7 @@ import (
 )
 
 func init() {
-	Register(&Scenario{Prop: "C16", Name: "event-delivery", Run: scenC16, Weight: 1,
+	Register(&Scenario{Prop: "C16", Name: "event-delivery", Run: scenC16, SoftParks: true, Weight: 1,
 		Rule: "store on P fed by local writes (at most one in flight, because the event bus sends while holding a per-type mutex) and by replication from Q; subscribers on P: a never-stalled reference subscriber, 1-2 event-bus subscribers with buffer 1/2/4/16 and 1-2 legacy channel subscribers (Subscribe / GlobalChannel); the kernel paces each subscriber with tokens (one receive attempt per token) and stalls them for drawn stretches, long enough to fill the 16-slot legacy channel and its overflow queue when more than 16 events are produced; the legacy emitter's drain goroutine parks at events.after-dequeue and is released in drawn order; 4-30 events per run; oracle: per event type every subscriber's sequence equals the reference sequence (no loss, duplication or reordering), there is exactly one EventWrite per successful local write and it carries that entry, and on receipt of EventWrite / EventReplicated the announced entries are already in the log and listing; non-trivial = >=4 events and some subscriber was stalled while >=2 events were produced"})
 }
 
